@@ -37,6 +37,7 @@ def _fixed_streams():
         ('nested-indef', 'ber', '(seqof (str 4))', '308024800401610000' + '0000', 1),
         # DER and CER decoders
         ('der-seq', 'der', '(seq (r int) (r bool))', '30060201050101ff' + '3006020107010100', 2),
+        ('der-seq-short', 'der', '(seq (r int))', '3003020105' + '3003020107', 2),
         ('cer-seqof', 'cer', '(seqof int)', '30800201050000' + '30800000', 2),
         # a single INTEGER with a guiding type, and schemaless
         ('int', 'ber', 'int', '020105', 1),
